@@ -223,9 +223,14 @@ def r3_3(repo: Repo) -> RuleResult:
     # the single-kernel users (skip-gram, tree) pack the same way
     for file, cname in (("vectorizers/skip_gram_vectorizer.py", "SkipgramVectorizer"), ("vectorizers/tree_token_cooccurrence.py", "LabelledTreeCooccurrenceVectorizer")):
         f = repo.func(file, cname + ".fit")
-        dicts = [n.value for n in walk_no_nested(f.node) if isinstance(n, ast.Assign) and is_self_attr(n.targets[0], "_kernel_args") and isinstance(n.value, ast.Dict)]
+        cls_ = repo.cls(file, cname)
+        # the packing may sit in fit itself or in a method fit calls (a shared parameter-setting helper)
+        cand = [f] + [g for g in repo.reachable_from(cls_, "fit") if g is not f and g.cls is cls_]
+        dicts = [(g, n.value) for g in cand for n in walk_no_nested(g.node)
+                 if isinstance(n, ast.Assign) and is_self_attr(n.targets[0], "_kernel_args") and isinstance(n.value, ast.Dict)]
         if len(dicts) != 1:
             raise AnalysisError("R3.3: kernel-argument dict literal not found in %s" % f.key)
+        f, dicts = dicts[0][0], [dicts[0][1]]
         keys = [k.value for k in dicts[0].keys]
         for k, g in repo.registry(WK, "_KERNEL_FUNCTIONS").items():
             got = g.positional_params[1:1 + len(keys)]
@@ -614,11 +619,50 @@ def r3_10(repo: Repo) -> RuleResult:
     return rr
 
 
-RULES = [r3_1, r3_2, r3_3, r3_4, r3_5, r3_6, r3_7, r3_8, r3_9, r3_10]
+def r3_11(repo: Repo) -> RuleResult:
+    """Each window's kernel is called with the defaults overridden by *that window's* arguments only.  The packing
+    loops over the per-window argument dicts; a container it updates per window and packs from must be created inside
+    the loop body - one created before the loop carries a key set for window i into every later window."""
+    rr = RuleResult("R3.11", "per-window kernel argument packs are built from a container created for that window", floor=2)
+    base = repo.cls(BASE_FILE, "BaseCooccurrenceVectorizer")
+    seen = set()
+    for c in [c for c in exported_estimators(repo) if base in repo.mro(c)]:
+        setter = repo.resolve_method(c, "_set_full_kernel_args")
+        if setter in seen:
+            continue
+        seen.add(setter)
+        loops = [n for n in walk_no_nested(setter.node) if isinstance(n, ast.For) and "_kernel_args" in norm(n.iter)]
+        if not loops:
+            raise AnalysisError("R3.11: loop over the per-window kernel arguments not found in %s" % setter.key)
+        for lp in loops:
+            body_nodes = [x for st in lp.body for x in ast.walk(st)]
+            made_here = {t.id for x in body_nodes if isinstance(x, (ast.Assign, ast.AnnAssign))
+                         for t in (x.targets if isinstance(x, ast.Assign) else [x.target]) if isinstance(t, ast.Name)}
+            mutated = []
+            for x in body_nodes:
+                if isinstance(x, ast.Call) and isinstance(x.func, ast.Attribute) and x.func.attr in ("update", "setdefault", "pop", "append", "extend") \
+                        and isinstance(x.func.value, ast.Name):
+                    mutated.append((x.func.value.id, x.lineno, "%s.%s(...)" % (x.func.value.id, x.func.attr)))
+                if isinstance(x, (ast.Assign, ast.AugAssign)):
+                    for t in (x.targets if isinstance(x, ast.Assign) else [x.target]):
+                        if isinstance(t, ast.Subscript) and isinstance(t.value, ast.Name):
+                            mutated.append((t.value.id, x.lineno, "%s[...] = ..." % t.value.id))
+            carried = [m for m in mutated if m[0] not in made_here]
+            if carried:
+                name, line, what = carried[0]
+                rr.bad(setter, "%s: %s" % (setter.qualname, what), "`%s` is created before the loop over the windows and updated inside it: an argument given for one "
+                       "window stays set for every later window that does not give it" % name, line)
+            else:
+                rr.ok(setter, "%s: loop over %s" % (setter.qualname, norm(lp.iter)), "containers updated per window (%s) are created in the loop body"
+                      % (", ".join(sorted({m[0] for m in mutated})) or "none"), lp.lineno)
+    return rr
+
+
+RULES = [r3_1, r3_2, r3_3, r3_4, r3_5, r3_6, r3_7, r3_8, r3_9, r3_10, r3_11]
 CLAIM = (
     "R3.1 precision flow: no absolute timestamp is narrowed to float32 before the time difference is formed; R3.2 the three tables "
     "(orientation -> reversal flags, orientation -> column prefixes, reversal flag -> before/after in window_at_index) agree; R3.3 "
     "positional kernel / window argument packing matches the parameter order of every function in each class's registry; R3.4 "
-    "window slices have non-negative lower bounds (clamp or range proof); R3.5 window_at_index takes exactly window_size neighbours adjacent to the index on the chosen side, nearest first; R3.6 the stored weight and the window total it is divided by both derive from the mix-weighted kernels (backward slices), with a zero-total guard; R3.7 kernel parameters fitted from the data (the mean time gap) are accumulated in an attribute that the same function re-initialises on every path; R3.8 every per-window configuration list (kernel and window functions, their arguments, radii) expands each orientation to as many entries as it has reversal flags (the dispatch is evaluated per orientation); R3.9 in the multiset kernels, which cut their windows themselves, a set reversal flag selects the slice ending at the position (reversed) and a clear flag the slice starting at it; R3.10 the n-gram kernels anchor the 'after' window at the n-gram's last token and the 'before' window at its first (the anchor expression is evaluated symbolically for reversal flag 0 and 1 against the bounds of the n-gram slice)."
+    "window slices have non-negative lower bounds (clamp or range proof); R3.5 window_at_index takes exactly window_size neighbours adjacent to the index on the chosen side, nearest first; R3.6 the stored weight and the window total it is divided by both derive from the mix-weighted kernels (backward slices), with a zero-total guard; R3.7 kernel parameters fitted from the data (the mean time gap) are accumulated in an attribute that the same function re-initialises on every path; R3.8 every per-window configuration list (kernel and window functions, their arguments, radii) expands each orientation to as many entries as it has reversal flags (the dispatch is evaluated per orientation); R3.9 in the multiset kernels, which cut their windows themselves, a set reversal flag selects the slice ending at the position (reversed) and a clear flag the slice starting at it; R3.10 the n-gram kernels anchor the 'after' window at the n-gram's last token and the 'before' window at its first (the anchor expression is evaluated symbolically for reversal flag 0 and 1 against the bounds of the n-gram slice); R3.11 the per-window kernel argument packs are built from a container created inside the loop over the windows (nothing set for one window carries into the next)."
 )
 NOT_DECIDED = "the numerical definition itself: kernel formulas, per-occurrence sums, window normalisation totals, the transpose identity."
